@@ -155,6 +155,11 @@ def check(ctx):
     n = import_rules(ctx, "c01", ("C01.5",), "C11.8",
                      pred=lambda o: ":dof:" in o.key)
     ctx.require(n >= 6, "C11.8: downsample_or_filter instances not found")
+    # ... and evo_traj in its own run(): trajectories and the reference
+    n = import_rules(ctx, "c15", ("C15.3",), "C11.8",
+                     pred=lambda o: ":motion_filter:" in o.key or
+                     ":downsample:" in o.key)
+    ctx.require(n >= 4, "C11.8: evo_traj filter wiring instances not found")
     n = import_rules(ctx, "c08", ("C08.7",), "C11.6")
     ctx.require(n >= 4, "C11.6: derived-quantity instances not found")
 
